@@ -50,6 +50,9 @@ META = {
 }
 
 
+KNOWN_TOML_NEST = "K-C04-toml-dotted-keys-stack-overflow"
+
+
 def adversarial(tier="thorough"):
     out = []
     for n in ((200, 5000, 100000) if tier == "thorough" else (200, 5000)):
@@ -73,6 +76,7 @@ def adversarial(tier="thorough"):
             ("json", b""), ("yaml", b""), ("toml", b""), ("msgpack", b""), ("json", b"\x00"), ("json", b'"' + b"\\u0000" * 50000 + b'"'),
             ("json", b"1" * 100000), ("json", b"-" + b"9" * 400 + b"e" + b"9" * 400), ("json", b"1e-" + b"9" * 100000),
             ("toml", b"a = " + b"9" * 100000), ("toml", b"a" * 100000 + b" = 1"), ("toml", b'a = """' + b"\\" * 99999),
+            ("toml", corpus.toml_dotted_nest(8)), ("toml", corpus.toml_dotted_nest(20)), ("toml", corpus.toml_dotted_nest(60)),
             ("yaml", b"a" * 200000), ("yaml", b"\xef\xbb\xbf" * 1000), ("yaml", b"\xff\xfe" + b"a\x00" * 5000), ("yaml", b"\x00\x00\xfe\xff" + b"\x00\x11\x00\x00" * 10)]
     return out
 
@@ -116,7 +120,12 @@ def run_sessions(outcome, tier, seed):
     for req, resp in zip(reqs, resps):
         r = shared.session_result(resp)
         hist[r[0]] = hist.get(r[0], 0) + 1
-        if r[0] == "crash":
+        if r[0] == "crash" and corpus.is_toml_dotted_nest(bytes.fromhex(req["calls"][0]["input"])) \
+                and any(k["id"] == KNOWN_TOML_NEST for k in common.load_known("C04")):
+            if not any(h[0] == KNOWN_TOML_NEST for h in outcome.known_hits):
+                outcome.known_hits.append((KNOWN_TOML_NEST, "in-process translation of %d nested inline tables under 79-part dotted keys: the process dies "
+                                           "(stack overflow)" % bytes.fromhex(req["calls"][0]["input"]).count(b"{")))
+        elif r[0] == "crash":
             c = req["calls"][0]
             outcome.oracle_failures.append({"what": "panic, abort, crash or hang: " + r[1][:200], "from": c["from"] or "detect", "to": req["to"],
                                             "mode": c["mode"], "sched": c.get("sched"), "input_hex": c["input"][:4000], "input_len": len(c["input"]) // 2})
@@ -153,7 +162,13 @@ def run_binary(outcome, tier, seed):
             rc = r.returncode
         except subprocess.TimeoutExpired:
             rc = "timeout"
-        if rc not in (0, 1):
+        if rc not in (0, 1) and fmt == "toml" and corpus.is_toml_dotted_nest(data) and rc == -6 \
+                and any(k["id"] == KNOWN_TOML_NEST for k in common.load_known("C04")):
+            if not any(h[0] == KNOWN_TOML_NEST for h in outcome.known_hits):
+                outcome.known_hits.append((KNOWN_TOML_NEST, "xt %s on %d nested inline tables under 79-part dotted keys (%d bytes of TOML): the debug "
+                                           "binary overflows its stack and aborts (SIGABRT)" % (" ".join(a if a != argv[-1] or stdin else "<file>" for a in argv),
+                                                                                               data.count(b"{"), len(data))))
+        elif rc not in (0, 1):
             bad.append({"what": "the xt binary did not exit with status 0 or 1 (wait status %s)" % rc, "argv": argv,
                         "format": fmt, "input_len": len(data), "input_head_hex": data[:64].hex()})
         return rc
